@@ -45,3 +45,17 @@ Definition expect_mem (t : ty) (base : list Z) (cs : list corr) : list string :=
   map (fun c => outcome t base (accept_mem t (apply_c c base))) cs.
 Definition expect_ret (t : ty) (base : list Z) (cs : list corr) : list string :=
   map (fun c => outcome t base (accept_ret t (apply_c c base))) cs.
+
+(* implementation-level models (DecImpl.v) evaluated on the same corrupted payloads: payload at address 4096,
+   stale memory = 0xEE everywhere else.  1 = ldec and vdec both equal accept_mem on every corruption of the list. *)
+From Verif Require Import C06.ZeroPad C05.DecImpl.
+Definition same_outcome (t : ty) (a b : option val) : bool :=
+  match a, b with
+  | Some x, Some y => list_eqb (enc t x) (enc t y)
+  | None, None => true
+  | _, _ => false
+  end.
+Definition impl_agree (t : ty) (base : list Z) (cs : list corr) : Z :=
+  if forallb (fun c => let p := apply_c c base in
+                       same_outcome t (accept_mem t p) (ldec 4096 (fun _ => 238) t p) &&
+                       same_outcome t (accept_mem t p) (vdec 4096 (fun _ => 238) t p)) cs then 1 else 0.
